@@ -256,6 +256,10 @@ func runStoreProp(prop, tier string, r *rng) {
 		parFailCase(prop, 40, 31, 12, 4, true)
 		parFailCase(prop, 40, 31, 12, 4, false)
 	}
+	if prop == "C08" || prop == "C14" {
+		readDuringDeleteCase(prop, "plain", 12, 9)
+		readDuringDeleteCase(prop, "ctx", 12, 9)
+	}
 	if prop == "C08" {
 		for _, k := range []int{1, 2, 3, 4, 7, 8, 12} {
 			delFaultCase(prop, 16, 11, k)
@@ -761,4 +765,60 @@ func delFaultCase(prop string, n, to, failAt int) {
 	}
 	emit("%s kind=delfault n=%d to=%d failat=%d => res1=%s tail1=%d tail1stored=%s res2=%s byheight=%s byhash=%s byheight2=%s byhash2=%s tail=%d rawleft=%d", prop, n, to, failAt,
 		errs(e1), t1, t1stored, errs(e2), js(bh1), js(bx1), js(bh2), js(bx2), tl, left)
+}
+
+// readDuringDeleteCase: while DeleteRange(1,to) is under way, something reads a height the deleter has ALREADY processed
+// (here: the handler of a later height does; a concurrent reader would do the same). On a context-aware datastore the
+// deletes sit in a write batch until the end, so that read still finds the header - and may leave it in a cache.
+// When DeleteRange has returned nil, nothing of the range may be retrievable.
+func readDuringDeleteCase(prop string, flavour string, n, to int) {
+	ctx := context.Background()
+	cfg := storeCfg{batch: 4, cache: 512, flavour: flavour, n: n}
+	run := newStoreRun(cfg, memdsCore())
+	if err := run.open(); err != nil {
+		panic(err)
+	}
+	st := run.st
+	_ = st.Append(ctx, run.chain[:n]...)
+	_ = st.Sync(ctx)
+	_ = st.Stop(ctx)
+	if err := run.open(); err != nil { // reopened: caches are cold, reads come from the datastore
+		panic(err)
+	}
+	st = run.st
+	seen := 0
+	st.OnDelete(func(ctx context.Context, h uint64) error {
+		if h >= 3 {
+			c, cancel := context.WithCancel(ctx)
+			cancel()
+			if x, err := st.GetByHeight(c, h-2); err == nil && x != nil {
+				seen++
+				_, _ = st.Get(ctx, x.Hash())
+			}
+		}
+		return nil
+	})
+	c, cancel := context.WithTimeout(ctx, 5*time.Second)
+	e1 := st.DeleteRange(c, 1, uint64(to))
+	cancel()
+	var byh, byhash, has []string
+	for h := 1; h < to; h++ {
+		if x, err := st.GetByHeight(cancelled, uint64(h)); err == nil && x.H == uint64(h) {
+			byh = append(byh, itoa(h))
+		}
+		if x, err := st.Get(ctx, run.chain[h-1].Hash()); err == nil && x != nil {
+			byhash = append(byhash, itoa(h))
+		}
+		if ok, _ := st.Has(ctx, run.chain[h-1].Hash()); ok {
+			has = append(has, itoa(h))
+		}
+	}
+	js := func(xs []string) string {
+		if len(xs) == 0 {
+			return "-"
+		}
+		return strings.Join(xs, ",")
+	}
+	emit("%s kind=readduringdelete flavour=%s n=%d to=%d => delete=%s readsthatfound=%d byheight=%s byhash=%s has=%s", prop, flavour, n, to, errs(e1), seen, js(byh), js(byhash), js(has))
+	run.close()
 }
